@@ -26,6 +26,7 @@ import (
 	"verif/pkg/keys"
 	"verif/pkg/netx"
 	"verif/pkg/sched"
+	"verif/pkg/starve"
 )
 
 func TestMain(m *testing.M) { ev.Main(m) }
@@ -153,6 +154,7 @@ func TestRenewalSchedule(t *testing.T) {
 			ren  int
 		}
 		out := make([]res, n)
+		win := starve.Begin()
 		var wg sync.WaitGroup
 		for i, l := range c.LifetimeMS {
 			wg.Add(1)
@@ -163,6 +165,12 @@ func TestRenewalSchedule(t *testing.T) {
 			}(i, l)
 		}
 		wg.Wait()
+		// a later-than verdict taken while this process did not get the CPU
+		// says nothing about gopcua's timer (DESIGN 3.4)
+		starved := win.Settle() > 40*time.Millisecond
+		if starved {
+			rec.Class("a:batch-starved(late verdicts dropped)")
+		}
 		for i, l := range c.LifetimeMS {
 			nt := l%1000 != 0 || l < 2000
 			cls := []string{"a:lifetime<1s"}
@@ -185,10 +193,17 @@ func TestRenewalSchedule(t *testing.T) {
 			}
 			one := schedCase{Policy: c.Policy, LifetimeMS: []int{l}}
 			if out[i].soft {
-				// a late timer can be the machine's doing: only 3/3 counts
+				if starved {
+					rec.Inconclusive()
+					continue
+				}
+				// a late timer can be the machine's doing: only 3/3 counts, and
+				// only executions during which the heartbeats were on time
 				again := 0
 				for k := 0; k < 2; k++ {
-					if m, _, _ := observe(c.Policy, time.Duration(l)*time.Millisecond); m != "" {
+					w2 := starve.Begin()
+					m, _, _ := observe(c.Policy, time.Duration(l)*time.Millisecond)
+					if m != "" && w2.Settle() <= 40*time.Millisecond {
 						again++
 					}
 				}
@@ -497,10 +512,17 @@ func TestReplay(t *testing.T) {
 			t.Fatal(err)
 		}
 		for _, l := range c.LifetimeMS {
-			bad := 0
+			bad, good := 0, 0
 			var last string
-			for i := 0; i < 3; i++ {
-				if m, _, _ := observe(c.Policy, time.Duration(l)*time.Millisecond); m != "" {
+			for i := 0; i < 8 && bad < 3 && good == 0; i++ {
+				w := starve.Begin()
+				m, soft, _ := observe(c.Policy, time.Duration(l)*time.Millisecond)
+				switch {
+				case m == "":
+					good++
+				case soft && w.Settle() > 40*time.Millisecond:
+					// starved execution: says nothing
+				default:
 					bad++
 					last = m
 				}
